@@ -80,30 +80,20 @@ fn parse_opts(args: &[String]) -> Opts {
 /// which engines decide a property, with the number of seeded runs per tier (quick, thorough)
 fn plan(prop: u8) -> Vec<(&'static str, u64, u64)> {
     match prop {
-        1 => vec![("adsr", 24_000, 600_000)],
-        2 => vec![("adsr", 24_000, 600_000)],
-        3 => vec![("adsr", 24_000, 600_000)],
-        4 => vec![("midi", 60_000, 3_000_000)],
-        5 => vec![("midi", 60_000, 3_000_000)],
-        6 => vec![("midi", 60_000, 3_000_000)],
-        18 => vec![("midi", 60_000, 3_000_000)],
-        7 => vec![("quant", 40_000, 2_000_000)],
-        9 => vec![("quant", 40_000, 2_000_000)],
-        19 => vec![("quant", 40_000, 2_000_000)],
-        10 => vec![("lfo", 16_000, 400_000)],
-        11 => vec![("lfo", 16_000, 400_000)],
-        12 => vec![("lfo", 16_000, 400_000)],
-        13 => vec![("glide", 16_000, 500_000)],
-        14 => vec![("glide", 16_000, 500_000)],
-        15 => vec![("ribbon", 12_000, 400_000)],
-        16 => vec![("ribbon", 12_000, 400_000)],
+        1 | 2 | 3 => vec![("adsr", 80_000, 2_000_000)],
+        4 | 5 | 18 => vec![("midi", 400_000, 10_000_000)],
+        6 => vec![("midi", 300_000, 6_000_000)],
+        7 | 9 | 19 => vec![("quant", 800_000, 20_000_000)],
+        10 | 11 | 12 => vec![("lfo", 60_000, 1_500_000)],
+        13 | 14 => vec![("glide", 150_000, 4_000_000)],
+        15 | 16 => vec![("ribbon", 40_000, 1_000_000)],
         17 => vec![
-            ("adsr", 12_000, 300_000),
-            ("midi", 30_000, 1_000_000),
-            ("quant", 20_000, 600_000),
-            ("lfo", 10_000, 300_000),
-            ("glide", 8_000, 200_000),
-            ("ribbon", 6_000, 150_000),
+            ("adsr", 30_000, 600_000),
+            ("midi", 150_000, 3_000_000),
+            ("quant", 150_000, 3_000_000),
+            ("lfo", 30_000, 600_000),
+            ("glide", 40_000, 800_000),
+            ("ribbon", 15_000, 300_000),
         ],
         _ => Vec::new(),
     }
